@@ -1,6 +1,7 @@
 package main
 
 import (
+	"fmt"
 	"go/token"
 	"go/types"
 	"strings"
@@ -169,7 +170,107 @@ func checkC05(c *Ctx, r *Report) {
 		r2.Check(ok, "activeDial.dial: response channel has capacity >= 1", f.Pos(), 1, "", "the worker blocks forever answering a caller whose context ended", "")
 	}
 
+	// a new connection answers only the requests that asked for the address it was dialled on (a force-direct request
+	// whose address set excludes relay addresses must not be completed with the relayed connection of another caller)
+	if f := r2.need(loopK); f != nil {
+		addK := "(*" + swarmP + ".Swarm).addConn"
+		n := 0
+		for _, sd := range findInstrs(f, isReschSend) {
+			vals, ok := structFieldValues(c, sd.(*ssa.Send).X, "conn", 3)
+			fromAdd := false
+			for _, v := range vals {
+				if isResultOfCall(strip(v), 0, addK) != nil {
+					fromAdd = true
+				}
+			}
+			if !ok || !fromAdd {
+				continue
+			}
+			n++
+			interested := edgeBool(func(v ssa.Value) bool {
+				ex, isEx := v.(*ssa.Extract)
+				if !isEx || ex.Index != 1 {
+					return false
+				}
+				lk, isLk := ex.Tuple.(*ssa.Lookup)
+				if !isLk {
+					return false
+				}
+				fl, _ := loadOfField(strip2(lk.X))
+				return fl != nil && fl.Name() == "addrs"
+			}, true)
+			r2.guard(f, "answer a pending request with the new connection", []ssa.Instruction{sd}, "the request's address set contains the dialled address", interested, nil)
+		}
+		r2.Check(n >= 1, loopK+": pending requests answered with the new connection", f.Pos(), n, "", "", "")
+	}
+
 	// ---- R3 ---------------------------------------------------------------
+	// the ranker only reorders: an overlapping copy that shifts part of the address list must have room for all of
+	// its source (a destination provably shorter than the source drops an address — which is then never dialled —
+	// and leaves a duplicate). Decided on affine bounds over a common base; undecidable shapes are left alone.
+	{
+		type bound struct {
+			atom ssa.Value
+			k    int64
+			end  bool // "to the end of the slice"
+		}
+		var parse func(v ssa.Value, d int) bound
+		parse = func(v ssa.Value, d int) bound {
+			if v == nil {
+				return bound{}
+			}
+			if k, ok := constInt(v); ok {
+				return bound{nil, k, false}
+			}
+			if bo, ok := v.(*ssa.BinOp); ok && d < 4 && (bo.Op == token.ADD || bo.Op == token.SUB) {
+				if k, isC := constInt(bo.Y); isC {
+					b := parse(bo.X, d+1)
+					if bo.Op == token.ADD {
+						b.k += k
+					} else {
+						b.k -= k
+					}
+					return b
+				}
+			}
+			return bound{v, 0, false}
+		}
+		n, nCopies := 0, 0
+		for _, f := range c.FnsOfPkg(swarmP) {
+			file := c.Fset.Position(f.Pos()).Filename
+			if !strings.HasSuffix(file, "dial_ranker.go") {
+				continue
+			}
+			n++
+			allInstrs(f, func(in ssa.Instruction) {
+				call, ok := in.(*ssa.Call)
+				if !ok || calleeKey(call) != "builtin.copy" {
+					return
+				}
+				dst, ok1 := strip2(call.Call.Args[0]).(*ssa.Slice)
+				src, ok2 := strip2(call.Call.Args[1]).(*ssa.Slice)
+				if !ok1 || !ok2 || !(strip(dst.X) == strip(src.X) || sameExpr(dst.X, src.X, 0)) {
+					return
+				}
+				nCopies++
+				lo1, lo2, hi2 := parse(dst.Low, 0), parse(src.Low, 0), parse(src.High, 0)
+				key := fnKey(f) + ": a shifting copy has room for all of its source"
+				if dst.High == nil || src.High == nil {
+					r2.OK(key, instrPos(in), 1, "destination (or source) runs to the end of the slice")
+					return
+				}
+				hi1 := parse(dst.High, 0)
+				if hi1.atom != hi2.atom || lo1.atom != lo2.atom {
+					r2.OK(key, instrPos(in), 1, "not decided: bounds over different bases")
+					return
+				}
+				diff := (hi1.k - lo1.k) - (hi2.k - lo2.k)
+				r2.Check(diff >= 0, key, instrPos(in), 1, fmt.Sprintf("len(dst) - len(src) = %d", diff), "the destination is shorter than the source: the last shifted address is dropped from the ranking (never dialled) and another appears twice", fmt.Sprintf("len(dst) - len(src) = %d", diff))
+			})
+		}
+		r2.Check(n >= 3 && nCopies >= 1, "dial ranker functions scanned for shifting copies", token.NoPos, n, "", "", fmt.Sprint(nCopies))
+	}
+
 	r3 := r.Rule("C05-R3", "E1/E3", 12, "tokens: popped FD waiters are started xor give back their peer token; dials start only past the token take; finishedDial frees and is deferred first")
 	goExec := func(in ssa.Instruction) bool { _, isGo := in.(*ssa.Go); return isGo && isCallTo(in, dl("executeDial")) }
 	if f := r3.need(dl("freeFDToken")); f != nil {
@@ -403,11 +504,18 @@ func checkC05(c *Ctx, r *Report) {
 		}, false)
 		r4.guard(f, "go dialWorker", gos, "no active dial for the peer", miss, nil)
 		for _, g := range gos {
-			w, n := (&Cut{Fn: f, From: []ssa.Instruction{g}, Sep: func(in ssa.Instruction) bool {
+			isReg := func(in ssa.Instruction) bool {
 				_, ok := in.(*ssa.MapUpdate)
 				return ok && isFieldWrite(in, dsT+".dials")
-			},
+			}
+			// registered before the worker starts, or afterwards before the function (and its critical section) ends
+			w, n := (&Cut{Fn: f, From: []ssa.Instruction{g}, Sep: isReg,
 				Target: func(in ssa.Instruction) bool { _, ok := in.(*ssa.Return); return ok }}).Run(c)
+			if w != "" {
+				if w2, n2 := (&Cut{Fn: f, Target: isInstr(g), Sep: isReg}).Run(c); w2 == "" {
+					w, n = "", n2
+				}
+			}
 			r4.Check(w == "", "getActiveDial: a started worker is registered in dials", instrPos(g), n+1, "", "", w)
 		}
 		incs := findInstrs(f, func(in ssa.Instruction) bool { return isFieldWrite(in, adT+".refCnt") })
